@@ -672,10 +672,43 @@ fn coding_class(case: &Case12) -> &'static str {
 /// request Content-Length) + what fails + for the others which Content-Length / coding class.
 fn sig(case: &Case12, detail: &str) -> String {
     if case.ext.is_mp() {
-        format!("multipart-form:{detail}")
+        if mp_delimiter_split_after_4(case) {
+            // known root cause (field.rs read_stream, buffer == "\r\n--"): keep it apart so that
+            // the known-finding entry masks nothing else
+            format!("multipart-form:delimiter-split-after-4-bytes:{detail}")
+        } else {
+            format!("multipart-form:{detail}")
+        }
     } else {
         format!("{}:{}:{}:{}", case.ext.name(), detail, cl_class(case), coding_class(case))
     }
+}
+
+/// true if the (gated) source pauses exactly 4 bytes into a `\r\n--boundary` delimiter
+fn mp_delimiter_split_after_4(case: &Case12) -> bool {
+    if !case.pending {
+        return false;
+    }
+    let built = build(case);
+    let needle = format!("\r\n--{MP_BOUNDARY}");
+    let mut ends = BTreeSet::new();
+    let mut e = 0;
+    for l in case.chunking.lens(built.wire.len()) {
+        e += l;
+        ends.insert(e);
+    }
+    let mut from = 0;
+    while let Some(i) = find(&built.wire[from..], needle.as_bytes()) {
+        if ends.contains(&(from + i + 4)) {
+            return true;
+        }
+        from += i + 1;
+    }
+    false
+}
+
+fn find(hay: &[u8], needle: &[u8]) -> Option<usize> {
+    hay.windows(needle.len()).position(|w| w == needle)
 }
 
 fn viol(case: &Case12, obs: &Obs12, clause: &str, detail: &str, what: String) -> Violation {
@@ -979,10 +1012,11 @@ fn judge_groups(cases: &[Case12], obs: &[Obs12]) -> Vec<Violation> {
             let (a, b) = (reps[0], reps[1]);
             let classes: Vec<String> = by_class.keys().cloned().collect();
             let ca = &cases[a];
+            let sig_case = reps.iter().map(|&i| &cases[i]).find(|c| c.ext.is_mp() && mp_delimiter_split_after_4(c)).unwrap_or(ca);
             out.push(Violation {
                 property: "C12".into(),
                 clause: "c".into(),
-                signature: sig(ca, &format!("chunking-dependent:{}", classes.join("|"))),
+                signature: sig(sig_case, &format!("chunking-dependent:{}", classes.join("|"))),
                 what: format!(
                     "same body/limit/headers, different chunking, different outcome: {} limit={} len={} coding={} {}: [{}] -> {} but [{}] -> {}",
                     ca.ext.name(), ca.limit, ca.len, ca.coding.token(), cl_class(ca),
